@@ -31,6 +31,8 @@ type caseParams struct {
 	backend string // backend of the subject node: memory | bolt | level
 	replica string // backend of the reopened replicas
 	stopAt  int    // the subject only accepts the first stopAt blocks (headers may go further); 0 = all
+	// hdrAt/hdrTo (gclong): headers hdrAt+1..hdrTo arrive inside the GC cycle that follows the flush at hdrAt
+	hdrAt, hdrTo uint32
 }
 
 func drawParams(k int, r *prng.R, tier string) caseParams {
@@ -67,6 +69,11 @@ func drawParams(k int, r *prng.R, tier string) caseParams {
 		}
 	case k == 9 || (tier == "thorough" && k%25 == 9): // block and header-hash page garbage collection
 		gclongParams(r, &p)
+	case k == 11: // fixed corpus (seeded C02-m8): headers cross the end of a header-hash page inside a GC cycle
+		gclongParams(r, &p)
+		p.proto.MTB, p.local.GCP = 40, 250
+		p.n = 6000 + r.Range(30, 80)
+		p.hdrAt, p.hdrTo = uint32(5990-r.Intn(4)), 5999
 	case k == 10: // fixed corpus: votes in the middle of an epoch, crash points before the epoch ends (seeded C02-m6)
 		p.kind, p.proto.Gov, p.proto.GovFixed = "gov", true, true
 		p.n, p.hdrs, p.pfMille = 5*govCommittee, false, 0
@@ -151,6 +158,14 @@ func runCase(k int, seed uint64, tier string) *caseOut {
 	if p.kind == "gclong" {
 		steps = nil
 		flushAt = gclongFlushes(r, p.n, p.proto.MTB, p.local.GCP, 600)
+		if p.hdrAt != 0 {
+			// the cycle at hdrAt must enter a new GC period: no flush in the same period before it
+			flushAt = nil
+			for f := uint32(600); f+600 < p.hdrAt; f += 600 {
+				flushAt = append(flushAt, f)
+			}
+			flushAt = append(flushAt, p.hdrAt, uint32(p.n))
+		}
 	}
 	// full reference observations are only needed where a node can be recovered: flush heights, reset target, tip
 	want := map[uint32]bool{0: true, uint32(p.n): true, p.target: true}
@@ -209,7 +224,7 @@ func runCase(k int, seed uint64, tier string) *caseOut {
 			sr.cleanup()
 		}
 		if p.kind == "gclong" {
-			sr, err = runSubjectGC(h, cfg, flushAt, p.backend)
+			sr, err = runSubjectGC(h, cfg, flushAt, p.backend, p.hdrAt, p.hdrTo)
 		} else {
 			sr, err = runSubject(h, cfg, p.local, steps, p.backend)
 		}
@@ -228,6 +243,12 @@ func runCase(k int, seed uint64, tier string) *caseOut {
 	}
 	c.cnt.add("subject:block-arrived-during-refused-flush", sr.during)
 	c.cnt.add("subject:flush-during-back-pressure-wait", sr.waited)
+	switch sr.hdrDuringGC {
+	case 1:
+		c.cnt.count("subject:headers-delivered-inside-gc-cycle")
+	case -1:
+		c.cnt.count("subject:headers-inside-gc-cycle-missed")
+	}
 	c.cnt.add("subject:back-pressure-wait-not-reached", sr.notWaited)
 	for _, l := range sr.lines {
 		if l[0] == "flushfail" {
